@@ -86,10 +86,19 @@ def parseKind : List String → Option Kind
   | ["action", f, c] => some (.action (nat! f) (nat! c))
   | _ => none
 
+def parseWrap (w : String) : Wrap :=
+  match w.splitOn ":" with
+  | ["ca", f] => .changeAction (nat! f)
+  | ["da"] => .disableAction
+  | ["ea"] => .enableAction
+  | ["ld", n] => .limitDepth (nat! n)
+  | ["lb", n] => .limitBytes (nat! n)
+  | _ => .none
+
 def parseAct : List String → ActionSpec
-  | [k, b, v, t, s] =>
+  | [k, b, v, t, s, w] =>
     { kind := if k == "apply" then .apply else if k == "apply0" then .apply0 else .none,
-      isBool := b == "1", vetoMod := nat! v, throwMod := nat! t, throwStd := s == "1" }
+      isBool := b == "1", vetoMod := nat! v, throwMod := nat! t, throwStd := s == "1", wrap := parseWrap w }
   | _ => {}
 
 def showCur (c : Cursor) : String := s!"{c.pos} {c.line} {c.col}"
@@ -133,12 +142,12 @@ def setFam (fs : Array (Array ActionSpec)) (f i : Nat) (a : ActionSpec) : Array 
 
 def runCase (ds : DState) (ts : List String) : List String :=
   match ts with
-  | [cid, root, a, m, eol, lz, uw, ib, il, ic, hex] =>
+  | [cid, root, a, m, eol, lz, uw, ib, il, ic, fam, hex] =>
     let cx : Ctx := { g := ds.g, inp := parseHex hex, eol := parseEol eol, lazy := lz == "1",
                       init := ⟨nat! ib, nat! il, nat! ic⟩, unwind := uw == "1", fams := ds.fams }
     let am := if a == "1" then AMode.action else .nothing
     let rm := if m == "r" then RMode.required else .optional
-    match parseTop cx ds.fuel (nat! root) am rm with
+    match run cx ds.fuel (nat! root) am rm { fam := nat! fam } cx.start with
     | none => [s!"CASE {cid}", "R none", "END"]
     | some r =>
       let resLine := match r.res with
@@ -168,12 +177,12 @@ def step (ds : DState) (line : String) : DState × List String :=
   match (line.trimAscii.toString.splitOn " ").filter (· ≠ "") with
   | ["G", _gid] => ({ ds with g := #[], fams := #[] }, [])
   | ["FUEL", n] => ({ ds with fuel := nat! n }, [])
-  | "N" :: id :: ctl :: k :: b :: v :: t :: s :: rest =>
+  | "N" :: id :: ctl :: k :: b :: v :: t :: s :: w :: rest =>
     match parseKind rest with
-    | some kind => ({ ds with g := setNode ds.g (nat! id) ⟨ctl == "1", parseAct [k, b, v, t, s], kind⟩ }, [])
+    | some kind => ({ ds with g := setNode ds.g (nat! id) ⟨ctl == "1", parseAct [k, b, v, t, s, w], kind⟩ }, [])
     | none => (ds, [s!"BAD node {line}"])
-  | ["F", f, id, k, b, v, t, s] =>
-    ({ ds with fams := setFam ds.fams (nat! f) (nat! id) (parseAct [k, b, v, t, s]) }, [])
+  | ["F", f, id, k, b, v, t, s, w] =>
+    ({ ds with fams := setFam ds.fams (nat! f) (nat! id) (parseAct [k, b, v, t, s, w]) }, [])
   | ["W", gid] =>
     let cx : Ctx := { g := ds.g, inp := #[], fams := ds.fams }
     (ds, [s!"W {gid} {if wftCheck cx then 1 else 0}"])
